@@ -357,9 +357,12 @@ fn oracle_loco_step(k: &mut Chk, pre: &Locomotive, post: &Locomotive, req: f64, 
                     || format!("fc brake {} rating {} transient {}", fc.pwr_brake.value, rating, fc.pwr_out_max.value));
             }
             let init = c.fc.pwr_out_max_init.value;
-            let ramp = f0.pwr_brake.value + rating / c.fc.pwr_ramp_lag.value * dt;
+            // "previous shaft power" is what the engine really delivered in the previous step = the generator's mechanical
+            // input then — NOT the fuel converter's own record of it (a stale record must not excuse a jump)
+            let prev_shaft = g0.pwr_mech_in.value;
+            let ramp = prev_shaft + rating / c.fc.pwr_ramp_lag.value * dt;
             k.req("C09", "fc_transient_ramp", fc.pwr_out_max.value <= ramp.max(init) * (1.0 + 1e-12) && (init > rating || fc.pwr_out_max.value <= rating),
-                || format!("transient {} prev brake {} ramp bound {} init {} rating {}", fc.pwr_out_max.value, f0.pwr_brake.value, ramp, init, rating));
+                || format!("transient {} previous shaft power {} (fc record {}) ramp bound {} init {} rating {}", fc.pwr_out_max.value, prev_shaft, f0.pwr_brake.value, ramp, init, rating));
             k.req("C09", "gen_within_rating", g.pwr_elec_prop_out.value >= 0.0 && g.pwr_elec_prop_out.value + g.pwr_elec_aux.value <= c.gen.pwr_out_max.value,
                 || "generator output outside rating".into());
             k.req("C09", "gen_published_le_rating", g.pwr_elec_out_max.value <= c.gen.pwr_out_max.value, || "gen published > rating".into());
@@ -433,6 +436,9 @@ fn loco_step_real(l: &mut Locomotive, req: f64, dt: f64, on: Option<bool>) -> Op
 }
 
 fn pick_dt(r: &mut Rng) -> f64 {
+    // now and then a step far beyond the battery's step-size domain H_dt (minutes): the implementation accepts it, the
+    // SOC then overshoots its window — the ledger and SOC bookkeeping clauses of C01 hold there too
+    if r.chance(0.06) { return *r.pick(&[60.0, 300.0, 1200.0]); }
     *r.pick(&[0.1, 0.5, 1.0, 1.0, 1.0, 2.5, 10.0])
 }
 
@@ -462,6 +468,7 @@ fn loco_trace_case(ctx: &mut Ctx, r: &mut Rng, steps: usize) {
     ctx.count(if bel { "pt.loco.bel" } else { "pt.loco.conv" });
     let mut trace: Vec<(f64, f64, Option<bool>)> = vec![];
     let start = l.clone();
+    let mut outside = 0;
     for _ in 0..steps {
         let dt = pick_dt(r);
         let on = if bel { *r.pick(&[None, Some(true)]) } else { *r.pick(&[None, Some(true), Some(true), Some(false)]) };
@@ -501,7 +508,8 @@ fn loco_trace_case(ctx: &mut Ctx, r: &mut Rng, steps: usize) {
                 l = post;
                 LocoTrait::step(&mut l);
                 trace.push((req, dt, on));
-                if soc_outside_window(&l) { ctx.count("pt.loco.trace_stopped_soc_outside_window"); break; }
+                // outside its window the battery is outside C09's domain, not C01's: a few more steps, then stop
+                if soc_outside_window(&l) { outside += 1; ctx.count("pt.loco.step_started_outside_soc_window"); if outside > 3 { ctx.count("pt.loco.trace_stopped_soc_outside_window"); break; } }
             }
             Some(Err(_)) => { ctx.count("pt.loco.step_err"); }
             None => {
@@ -615,6 +623,7 @@ fn consist_trace_case(ctx: &mut Ctx, r: &mut Rng, steps: usize, nmax: usize) {
     ctx.count(match c.pdct { PowerDistributionControlType::Proportional(_) => "pt.consist.proportional", _ => "pt.consist.res_greedy" });
     let start = c.clone();
     let mut trace: Vec<(f64, f64)> = vec![];
+    let mut outside = 0;
     for _ in 0..steps {
         let dt = pick_dt(r);
         let mut probe = c.clone();
@@ -675,7 +684,7 @@ fn consist_trace_case(ctx: &mut Ctx, r: &mut Rng, steps: usize, nmax: usize) {
                 c = post;
                 LocoTrait::step(&mut c);
                 trace.push((req, dt));
-                if c.loco_vec.iter().any(soc_outside_window) { ctx.count("pt.consist.trace_stopped_soc_outside_window"); break; }
+                if c.loco_vec.iter().any(soc_outside_window) { outside += 1; ctx.count("pt.consist.step_started_outside_soc_window"); if outside > 3 { ctx.count("pt.consist.trace_stopped_soc_outside_window"); break; } }
             }
             Some(Err(_)) => { ctx.count("pt.consist.step_err"); }
             None => {
